@@ -38,6 +38,12 @@ def stub_ninja(d):
 
 
 def gen_tests(rnd):
+    if rnd.random() < 0.3:
+        # an early LONG parallel test, more short parallel ones than there are job slots, then a non-parallel test: the long
+        # one is still running when everything queued after it has finished
+        k = rnd.randint(3, 5)
+        mk = lambda name, dur, par: {'name': name, 'dur': dur, 'code': 0, 'parallel': par, 'priority': 0, 'should_fail': False, 'timeout': 30, 'suite': 'a'}
+        return [mk('t0long', rnd.choice([0.6, 0.8]), True)] + [mk(f't{i + 1}', rnd.choice([0.02, 0.05]), True) for i in range(k)] + [mk(f't{k + 1}serial', 0.1, False), mk(f't{k + 2}', 0.05, True)]
     n = rnd.randint(3, 8)
     tests = []
     for i in range(n):
@@ -181,7 +187,7 @@ def run(REG, tier, seed, jobs):
     # the schedule is timing sensitive: at most 4 projects at a time, so that the machine is not oversubscribed
     ev, nt, fails = pmap(_run_chunk, chunked(iter(seeds), 1), min(jobs, 4))
     return {'parts': [{'name': 'C12/bounded/real-meson-test-runs', 'function': 'meson test --no-rebuild (real scheduler, subprocesses, loggers)',
-                       'bound': f'{n} generated test sets of 3-8 tests (parallel/serial, priorities, durations 20 ms - 0.7 s, exit 0/1/3/77/99, should_fail, a timeout, some of them exiting with their normal status when terminated) x 5 invocations (--num-processes 1-4, --repeat 2, --suite, --slice 1/2 and 2/2)',
+                       'bound': f'{n} generated test sets of 3-8 tests (three in ten of the shape: an early long parallel test, more short parallel tests than job slots, then a non-parallel one; parallel/serial, priorities, durations 20 ms - 0.7 s, exit 0/1/3/77/99, should_fail, a timeout, some of them exiting with their normal status when terminated) x 5 invocations (--num-processes 1-4, --repeat 2, --suite, --slice 1/2 and 2/2)',
                        'evaluations': ev, 'distinct_nontrivial': nt, 'rule': 'every invocation', 'exhaustive': False, 'failures': fails}]}
 
 
